@@ -270,6 +270,11 @@ def den_op(e, st):
                 r = z3.URem(big, dd)
             undef = st.uf(op + '_divzero', [n, n], n)(hi, lo)
             st.defined.append(d != 0)
+            # a quotient that does not fit the operand size is a divide error as well (#DE): no result
+            if signed:
+                st.defined.append(z3.Or(d == 0, z3.And(q >= z3.BitVecVal(-(1 << (n - 1)), 2 * n), q <= z3.BitVecVal((1 << (n - 1)) - 1, 2 * n))))
+            else:
+                st.defined.append(z3.Or(d == 0, z3.ULE(q, z3.BitVecVal((1 << n) - 1, 2 * n))))
             return fit(z3.If(d == 0, undef, z3.Extract(n - 1, 0, r if rem else q)), w)
     if op in ('<<<c_rez', '<<<c_cf', '>>>c_rez', '>>>c_cf') and len(vs) == 3:
         a, c, cf = vs
